@@ -421,3 +421,49 @@ pub fn conn_scenarios(port: u16, conn_limit: u32, item_limit: u32, seed: u64, n:
     conn_out.flush().unwrap();
     n
 }
+
+
+/// Memory-limit probe against the binary started with `--eviction-policy random --memory-limit <limit>` (C14, C15: the
+/// configured limit is the one the eviction works with): far more than the limit is stored in records of up to `maxrec`
+/// bytes, then everything is read back; the bytes still stored are reported (judged by CountTrace).
+pub fn mem_probe(port: u16, limit: u64, path: &str) -> usize {
+    let mut out = std::io::BufWriter::new(std::fs::File::create(path).unwrap());
+    let mut c = match Client::connect(port) {
+        Ok(c) => c,
+        Err(_) => {
+            writeln!(out, "{}", json!({"e": "memprobe", "alive": false})).unwrap();
+            return 0;
+        }
+    };
+    let _ = one(&mut c, &Frame::consistent(0x08, &[], &[], &[], 1, 0));
+    let maxrec: u64 = 24 + 1000;
+    let n = (4 * limit / 700) as usize + 20;
+    let mut sizes: Vec<usize> = Vec::new();
+    let mut bad = 0usize;
+    for i in 0..n {
+        let len = 400 + (i * 37) % 600;
+        sizes.push(len);
+        let rs = one(&mut c, &store_frame(0x01, format!("m{}", i).as_bytes(), &vec![b'a' + (i % 26) as u8; len], 100 + i as u32));
+        if rs.len() != 1 || rs[0]["st"].as_u64() != Some(0) {
+            bad += 1;
+        }
+    }
+    let mut stored: u64 = 0;
+    let mut hits = 0usize;
+    for i in 0..n {
+        let rs = one(&mut c, &Frame::consistent(0x00, &[], format!("m{}", i).as_bytes(), &[], 5000 + i as u32, 0));
+        if rs.len() == 1 && rs[0]["st"].as_u64() == Some(0) {
+            let v = rs[0]["v"].as_str().unwrap_or("");
+            hits += 1;
+            stored += 24 + (v.len() / 2) as u64;
+            if v.len() / 2 != sizes[i] {
+                bad += 1;
+            }
+        }
+    }
+    let _ = c.s.shutdown(Shutdown::Both);
+    writeln!(out, "{}", json!({"e": "memprobe", "alive": true, "limit": limit, "maxrec": maxrec, "n": n, "hits": hits, "stored": stored, "bad": bad,
+        "offered": sizes.iter().map(|x| 24 + *x as u64).sum::<u64>()})).unwrap();
+    out.flush().unwrap();
+    1
+}
